@@ -3,6 +3,7 @@
 import json, sys
 pid = sys.argv[1]
 n = sys.argv[2] if len(sys.argv) > 2 else "2"
+extra = sys.argv[3] if len(sys.argv) > 3 else ""
 for l in open('/verif/properties.jsonl'):
     p = json.loads(l)
     if p['id'] == pid:
@@ -15,7 +16,7 @@ PROPERTY ({p['id']}: {p['title']}):
 {p['statement']}
 It is quantified over: {p['quantifier']['text']}
 
-TASK: produce {n} distinct, realistic source changes (the kind a maintainer could make by mistake or in a plausible refactor: an off-by-one, a wrong variable, a dropped case, a changed comparison, a reordered step, two sites that each look fine alone) each of which BREAKS this property while the project still compiles and the existing test suite still passes (`cargo test --offline`; the test sample_files_test::test_sample_csv_file_validity already fails on the unchanged tree and is to be ignored). Prefer changes that need something specific to manifest (a particular multi-step sequence of transactions or runs, an unusual but valid input, a particular date offset, a crash/fault at a particular point, several affiliates/securities, two cooperating sites) rather than changes that ordinary use would expose at once. Each change must be small (a few lines), must not touch tests, and must differ in mechanism from the others.
+TASK: produce {n} distinct, realistic source changes (the kind a maintainer could make by mistake or in a plausible refactor: an off-by-one, a wrong variable, a dropped case, a changed comparison, a reordered step, two sites that each look fine alone) each of which BREAKS this property while the project still compiles and the existing test suite still passes (`cargo test --offline`; the test sample_files_test::test_sample_csv_file_validity already fails on the unchanged tree and is to be ignored). Prefer changes that need something specific to manifest (a particular multi-step sequence of transactions or runs, an unusual but valid input, a particular date offset, a crash/fault at a particular point, several affiliates/securities, two cooperating sites) rather than changes that ordinary use would expose at once. Each change must be small (a few lines), must not touch tests, and must differ in mechanism from the others. {extra}
 
 For each change k = 1..{n}, create /tmp/mutout/{pid}/k/ containing:
   - patch.diff : `git diff` against the worktree HEAD; must apply with `git apply` on a clean checkout.
